@@ -105,6 +105,11 @@ pub struct FnTr<'a> {
     pub tparams: HashMap<String, Ty>,
 }
 
+// builder U: true while the value being translated is the value of the FUNCTION (the final expression of its body,
+// through `match` arms / `if` branches / blocks): there `if c { return x; }` before a block's value is a branch.
+// `ex` (any non-tail expression) masks it.
+thread_local! { static TAIL_POS: std::cell::Cell<bool> = const { std::cell::Cell::new(false) }; }
+
 pub(crate) type Env = HashMap<String, Ty>;
 pub(crate) type Stmts = Vec<(String, Rhs)>;
 
@@ -463,7 +468,10 @@ impl<'a> FnTr<'a> {
                 }
                 Stmt::Expr(e, semi) => {
                     if last && semi.is_none() && !(self.ret == Ty::Unit && !self.muts.is_empty()) {
-                        let tail = self.tail_expr(e, env, &mut st)?;
+                        let prev = TAIL_POS.with(|t| t.replace(self.muts.is_empty() && !self.reg.io.borrow().mode));
+                        let tail = self.tail_expr(e, env, &mut st);
+                        TAIL_POS.with(|t| t.set(prev));
+                        let tail = tail?;
                         return Ok(Seq { stmts: st, tail });
                     }
                     match e {
@@ -475,6 +483,38 @@ impl<'a> FnTr<'a> {
                         // outer variables or leave with `return Err(..)` (= throw: valid in any position)
                         Expr::If(_) | Expr::Match(_) if self.reg.io.borrow().mode && !crate::phyio::returns_ok(e) => {
                             crate::phyio::stmt_branch(self, e, env, &mut st)?;
+                        }
+                        // builder U: `e?;` on a `Result<(), E>` whose error value is never inspected (`Err` = `none`)
+                        Expr::Try(t) if self.muts.is_empty() => {
+                            let inner = &t.expr;
+                            let desugared: Stmt = parse_quote! { let Some(_) = #inner else { return None; }; };
+                            let mut rest: Vec<Stmt> = vec![desugared];
+                            rest.extend(stmts[i + 1..].iter().cloned());
+                            let seq = self.block_tail(&rest, env)?;
+                            st.extend(seq.stmts);
+                            return Ok(Seq { stmts: st, tail: seq.tail });
+                        }
+                        // builder U: `dst[a..b].copy_from_slice(src);` on a local array (a panic unless the range is
+                        // valid and the lengths agree)
+                        Expr::MethodCall(mc) if mc.method == "copy_from_slice" && mc.args.len() == 1 && matches!(&*mc.receiver, Expr::Index(ix) if matches!(&*ix.index, Expr::Range(_)) && matches!(&*ix.expr, Expr::Path(_))) => {
+                            let Expr::Index(ix) = &*mc.receiver else { unreachable!() };
+                            let Expr::Range(r) = &*ix.index else { unreachable!() };
+                            let Expr::Path(dp) = &*ix.expr else { unreachable!() };
+                            let dname = path_str(&dp.path);
+                            let (d, td) = self.ex(&ix.expr, env, &mut st, None)?;
+                            if !matches!(td, Ty::Arr(_)) || !matches!(r.limits, RangeLimits::HalfOpen(_)) {
+                                return Err("copy_from_slice: unsupported destination".into());
+                            }
+                            let a = match &r.start {
+                                Some(e) => self.ex(e, env, &mut st, Some(Ty::Int("usize")))?.0,
+                                None => "0".to_string(),
+                            };
+                            let b = match &r.end {
+                                Some(e) => self.ex(e, env, &mut st, Some(Ty::Int("usize")))?.0,
+                                None => format!("(Int.ofNat {}.length)", paren(&d)),
+                            };
+                            let (src, _) = self.ex(&mc.args[0], env, &mut st, Some(td.clone()))?;
+                            st.push((lean_ident(&dname), Rhs::Act(format!("Rt.copyFromSlice {} {} {} {}", paren(&d), paren(&a), paren(&b), paren(&src)))));
                         }
                         Expr::Return(r) => {
                             let e = match r.expr.as_ref() {
@@ -1744,6 +1784,35 @@ impl<'a> FnTr<'a> {
             self.ret = saved;
             return Ok((Seq { stmts: st, tail: Tail::Val("()".into()) }, Ty::Unit));
         }
+        // builder U: in function-tail position, `if c { return x; }` before the value: `if c then x else <rest>`
+        let tail_pos = TAIL_POS.with(|t| t.get());
+        if tail_pos {
+            for (i, s0) in stmts[..n - 1].iter().enumerate() {
+                if let Stmt::Expr(Expr::If(ei), _) = s0 {
+                    let ret_e = match ei.then_branch.stmts.as_slice() {
+                        [Stmt::Expr(Expr::Return(r), _)] => r.expr.as_ref(),
+                        _ => None,
+                    };
+                    if let (Some(ret_e), true, false) = (ret_e, ei.else_branch.is_none(), has_let(&ei.cond)) {
+                        let r = (|| -> Res<(Seq, Ty)> {
+                            TAIL_POS.with(|t| t.set(false));
+                            let mut pre = if i > 0 { self.block_tail_prefix(&stmts[..i], env)? } else { vec![] };
+                            let (c, _) = self.cond(&ei.cond, env, &mut pre)?;
+                            let mut st2 = vec![];
+                            let mut env_r = env.clone();
+                            let (rt, _) = self.tail_expr_ty(ret_e, &mut env_r, &mut st2, Some(saved.clone()))?;
+                            TAIL_POS.with(|t| t.set(true));
+                            let (rest, ty) = self.block_val(&stmts[i + 1..], env, expect.clone())?;
+                            Ok((Seq { stmts: pre, tail: Tail::If(c, Box::new(Seq { stmts: st2, tail: rt }), Box::new(rest)) }, ty))
+                        })();
+                        TAIL_POS.with(|t| t.set(tail_pos));
+                        self.ret = saved;
+                        return r;
+                    }
+                    break;
+                }
+            }
+        }
         // builder N: `if c { panic!(..) }` before the value: `if c then none else <rest of the block>`
         for (i, s0) in stmts[..n - 1].iter().enumerate() {
             if let Stmt::Expr(Expr::If(ei), _) = s0 {
@@ -1766,8 +1835,10 @@ impl<'a> FnTr<'a> {
         let res = (|| -> Res<(Seq, Ty)> {
             if !prefix.is_empty() {
                 // translate prefix statements by wrapping: we call block_tail on prefix + unit, then drop the tail
-                let pseq = self.block_tail_prefix(prefix, env)?;
-                st.extend(pseq);
+                TAIL_POS.with(|t| t.set(false));
+                let pseq = self.block_tail_prefix(prefix, env);
+                TAIL_POS.with(|t| t.set(tail_pos));
+                st.extend(pseq?);
             }
             match &last[0] {
                 Stmt::Expr(e, None) => {
@@ -2340,6 +2411,13 @@ impl<'a> FnTr<'a> {
 
     /// Translate an expression; fallible sub-computations are hoisted into `st`.
     pub fn ex(&mut self, e: &Expr, env: &mut Env, st: &mut Stmts, expect: Option<Ty>) -> Res<(String, Ty)> {
+        let prev = TAIL_POS.with(|t| t.replace(false));
+        let r = self.ex_inner(e, env, st, expect);
+        TAIL_POS.with(|t| t.set(prev));
+        r
+    }
+
+    fn ex_inner(&mut self, e: &Expr, env: &mut Env, st: &mut Stmts, expect: Option<Ty>) -> Res<(String, Ty)> {
         match e {
             Expr::Lit(l) => match &l.lit {
                 Lit::Int(i) => {
@@ -2589,6 +2667,36 @@ impl<'a> FnTr<'a> {
                     _ => Err("`[..]` on a non-slice".into()),
                 }
             }
+            // builder U: `x[a..b]`, `x[a..]`, `x[..b]` — a sub-slice (an invalid range is a panic)
+            Expr::Index(ix) if matches!(&*ix.index, Expr::Range(r) if matches!(r.limits, RangeLimits::HalfOpen(_)) || r.end.is_some()) => {
+                let Expr::Range(r) = &*ix.index else { unreachable!() };
+                let closed = matches!(r.limits, RangeLimits::Closed(_));
+                let (a, ta) = self.ex(&ix.expr, env, st, None)?;
+                let el = match ta {
+                    Ty::Arr(el) | Ty::HVec(el, _) => el,
+                    _ => return Err("range index on a non-slice".into()),
+                };
+                let lo = match &r.start {
+                    Some(e) => Some(self.ex(e, env, st, Some(Ty::Int("usize")))?.0),
+                    None => None,
+                };
+                let hi = match &r.end {
+                    Some(e) => Some(self.ex(e, env, st, Some(Ty::Int("usize")))?.0),
+                    None => None,
+                };
+                // `a..=b` is `a..b + 1` (the end bound itself overflowing is a panic)
+                let hi = match hi {
+                    Some(h) if closed => Some(self.act(st, format!("Rt.ck .usize ({} + 1)", h))),
+                    h => h,
+                };
+                let term = match (lo, hi) {
+                    (Some(lo), Some(hi)) => format!("Rt.slice {} {} {}", paren(&a), paren(&lo), paren(&hi)),
+                    (None, Some(hi)) => format!("Rt.slice {} 0 {}", paren(&a), paren(&hi)),
+                    (Some(lo), None) => format!("Rt.sliceFrom {} {}", paren(&a), paren(&lo)),
+                    (None, None) => unreachable!(),
+                };
+                Ok((self.act(st, term), Ty::Arr(el)))
+            }
             Expr::Index(ix) => {
                 let (a, ta) = self.ex(&ix.expr, env, st, None)?;
                 let (i, _) = self.ex(&ix.index, env, st, Some(Ty::Int("usize")))?;
@@ -2789,6 +2897,19 @@ impl<'a> FnTr<'a> {
                     args.push(paren(&x));
                 }
                 return Ok((format!("({}.{} {})", tyn, lean_ident(&segs[segs.len() - 1]), args.join(" ")), Ty::Named(tyn)));
+            }
+        }
+        // builder U: constructor of a one-field tuple struct the unit models as a newtype (`Redundancy(data)`);
+        // a unit-like tuple struct (`T()`) is the structure without fields
+        if segs.len() == 1 && !self.local_fns.contains_key(&segs[0]) && !self.reg.fns.contains_key(&segs[0]) {
+            if let Some(fields) = self.reg.structs.get(&segs[0]).cloned() {
+                if fields.len() == 1 && fields[0].0 == "0" && c.args.len() == 1 {
+                    let (x, _) = self.ex(&c.args[0], env, st, Some(fields[0].1.clone()))?;
+                    return Ok((format!("({{ _0 := {} }} : {})", x, segs[0]), Ty::Named(segs[0].clone())));
+                }
+                if fields.is_empty() && c.args.is_empty() {
+                    return Ok((format!("({{ }} : {})", segs[0]), Ty::Named(segs[0].clone())));
+                }
             }
         }
         // local nested fn, then registry
